@@ -885,52 +885,61 @@ func runDb(tr *vh.Trace, rnd *rand.Rand, nsteps int, scripted int) int {
 	s.open(true)
 	tr.Emit(vh.E("DbOpen"))
 	s.obs(0, s.db.GetState())
-	switch scripted {
-	case 1: // F7 at the database level: the only table dropped after a persist
-		s.admin("create " + s.tname[1] + " (k) key(k)")
-		s.tabs[1] = &dbtab{nc: 1}
-		tr.Emit(vh.E("DbCreate", "t", 1, "nc", 1))
-		s.obs(0, s.db.GetState())
-		s.persist()
-		s.admin("drop " + s.tname[1])
-		delete(s.tabs, 1)
-		tr.Emit(vh.E("DbDrop", "t", 1))
-		s.obs(0, s.db.GetState())
-		s.reopen()
-	case 2: // the last view
-		s.admin("view " + s.vname[1] + " = tables where nrows is 7")
-		s.views[1] = 7
-		tr.Emit(vh.E("DbView", "v", 1, "d", 7))
-		s.obs(0, s.db.GetState())
-		s.persist()
-		s.admin("drop " + s.vname[1])
-		delete(s.views, 1)
-		tr.Emit(vh.E("DbDropView", "v", 1))
-		s.obs(0, s.db.GetState())
-		s.persist()
-		s.reopen()
-	case 3: // a view keeps the schema table alive, only the info table empties
-		s.admin("view " + s.vname[1] + " = tables where nrows is 9")
-		s.views[1] = 9
-		tr.Emit(vh.E("DbView", "v", 1, "d", 9))
-		s.obs(0, s.db.GetState())
-		s.admin("create " + s.tname[2] + " (k) key(k)")
-		s.tabs[2] = &dbtab{nc: 1}
-		tr.Emit(vh.E("DbCreate", "t", 2, "nc", 1))
-		s.obs(0, s.db.GetState())
-		s.persist()
-		s.admin("drop " + s.tname[2])
-		delete(s.tabs, 2)
-		tr.Emit(vh.E("DbDrop", "t", 2))
-		s.obs(0, s.db.GetState())
-		s.persist()
-		s.reopen()
+	if e := catch(func() {
+		switch scripted {
+		case 1: // F7 at the database level: the only table dropped after a persist
+			s.admin("create " + s.tname[1] + " (k) key(k)")
+			s.tabs[1] = &dbtab{nc: 1}
+			tr.Emit(vh.E("DbCreate", "t", 1, "nc", 1))
+			s.obs(0, s.db.GetState())
+			s.persist()
+			s.admin("drop " + s.tname[1])
+			delete(s.tabs, 1)
+			tr.Emit(vh.E("DbDrop", "t", 1))
+			s.obs(0, s.db.GetState())
+			s.reopen()
+		case 2: // the last view
+			s.admin("view " + s.vname[1] + " = tables where nrows is 7")
+			s.views[1] = 7
+			tr.Emit(vh.E("DbView", "v", 1, "d", 7))
+			s.obs(0, s.db.GetState())
+			s.persist()
+			s.admin("drop " + s.vname[1])
+			delete(s.views, 1)
+			tr.Emit(vh.E("DbDropView", "v", 1))
+			s.obs(0, s.db.GetState())
+			s.persist()
+			s.reopen()
+		case 3: // a view keeps the schema table alive, only the info table empties
+			s.admin("view " + s.vname[1] + " = tables where nrows is 9")
+			s.views[1] = 9
+			tr.Emit(vh.E("DbView", "v", 1, "d", 9))
+			s.obs(0, s.db.GetState())
+			s.admin("create " + s.tname[2] + " (k) key(k)")
+			s.tabs[2] = &dbtab{nc: 1}
+			tr.Emit(vh.E("DbCreate", "t", 2, "nc", 1))
+			s.obs(0, s.db.GetState())
+			s.persist()
+			s.admin("drop " + s.tname[2])
+			delete(s.tabs, 2)
+			tr.Emit(vh.E("DbDrop", "t", 2))
+			s.obs(0, s.db.GetState())
+			s.persist()
+			s.reopen()
+		}
+	}); e != nil {
+		tr.Emit(vh.E("DbCrash", "what", "scripted", "msg", fmt.Sprint(e)))
+		return s.ops
 	}
-	for i := 0; i < nsteps && !s.dead; i++ {
-		s.step()
-	}
-	if !s.dead {
-		s.db.Close()
+	if e := catch(func() {
+		for i := 0; i < nsteps && !s.dead; i++ {
+			s.step()
+		}
+		if !s.dead {
+			s.db.Close()
+		}
+	}); e != nil {
+		tr.Emit(vh.E("DbCrash", "what", "step", "msg", fmt.Sprint(e)))
 	}
 	return s.ops
 }
@@ -959,10 +968,16 @@ func main() {
 		s := newHscen(tr, rnd)
 		tr.Emit(vh.E("Open", "profile", profile))
 		s.obsAll()
-		if scripted >= 0 {
-			s.scripted(scripted)
+		// a panic inside the hamt code (Put, Delete, Get, All, ...) is an outcome of the
+		// code under test: it is recorded (and rejected by the trace spec), not a driver crash
+		if e := catch(func() {
+			if scripted >= 0 {
+				s.scripted(scripted)
+			}
+			s.run(nsteps, style)
+		}); e != nil {
+			tr.Emit(vh.E("Crash", "what", "hamt", "msg", fmt.Sprint(e)))
 		}
-		s.run(nsteps, style)
 		writes += s.writes
 		puts += s.puts
 		dels += s.dels
